@@ -61,3 +61,9 @@ Theorem pinned_refuted :
   let s := fold_left fstep_pinned [PCreate; PJoinAlloc 1 7; PCreatorWrite; PJoinAlloc 2 7] {| used := []; held := [] |} in
   map snd (held s) = [7; 7; 1].
 Proof. reflexivity. Qed.
+
+(* an allocation between the read and the write of a removal is forgotten: a third process is handed the same window *)
+Theorem split_release_refuted :
+  let s := fold_left sstep [SAlloc 0 9; SRelRead 0; SAlloc 1 10; SRelWrite 0; SAlloc 2 10] {| s_f := {| used := []; held := [] |}; s_snap := [] |} in
+  ~ NoDup (map snd (held (s_f s))).
+Proof. vm_compute. intros H. inversion H as [|x l Hn _]. apply Hn. left. reflexivity. Qed.
